@@ -314,14 +314,16 @@ class C04(Check):
     def gen_clamped(self, rng, nr, i):
         """declination range of the grid clamped at +-90: large chunk sizes relative to the polar distance."""
         m = log_uniform(rng, 0.05, 12.0)
-        sgn = rng.choice([1.0, 1.0, -1.0])
+        sgn = rng.choice([1.0, 1.0, 1.0, -1.0])
         n1, n2 = rng.randint(2, 40), rng.randint(1, 40)
         top = rng.uniform(60.0, 89.9)
-        bot = top - rng.uniform(0.5, 50.0)
+        # wide Dec extents matter: the last boundary is decMin + (90-decMin)*nDec/nDec, which only rounds above 90
+        # when 90-decMin is large (F-G2)
+        bot = rng.uniform(-30.0, 40.0) if rng.random() < 0.7 else top - rng.uniform(0.5, 50.0)
         ra0 = rng.uniform(0, 360)
         w = rng.choice([5.0, 30.0, 180.0])
         ra1 = [R.wrap360(ra0 + rng.uniform(-w, w)) for _ in range(n1)]
-        dec1 = [sgn * rng.uniform(bot, top) for _ in range(n1)]
+        dec1 = [sgn * bot, sgn * top] + [sgn * rng.uniform(bot, top) for _ in range(n1 - 2)]
         # chunk size large enough that decMax + pad exceeds 90 - 3*cs
         cs = max(1.01 * m, (90.0 - top) / 3.0 * rng.uniform(1.0, 6.0), rng.uniform(1.0, 15.0))
         ra2 = [R.wrap360(ra0 + rng.uniform(-w, w)) for _ in range(n2 - n2 // 2)]
